@@ -235,46 +235,156 @@ Proof.
   unfold U16_MAX. destruct (65535 <? g) eqn:E; [apply N.ltb_lt in E; lia|]. reflexivity.
 Qed.
 
-(* the groups after the first: each is preceded by a colon *)
-Lemma read_groups_tail : forall gs drops uppers i acc, groups_ok drops gs = true -> (1 <= i)%nat -> (i + length gs = 8)%nat ->
-  read_groups (length gs) i 8 (match gs with [] => [] | _ => 58 :: render_groups drops uppers gs end) acc = (acc ++ gs, false, []).
+(* what may follow a run of groups: the end of the text, or "::" *)
+Definition gstop (rest : bytes) : Prop := rest = [] \/ exists X, rest = 58 :: 58 :: X.
+
+Lemma gstop_stopper rest : gstop rest -> stopper 16 rest.
+Proof. intros [->|(X & ->)]; reflexivity. Qed.
+
+Lemma read_number_colon radix maxd z tmax X : read_number radix maxd z tmax (58 :: X) = None.
 Proof.
-  induction gs as [|g gs IH]; intros drops uppers i acc Hok Hi Hlen.
-  - cbn [length read_groups]. rewrite app_nil_r. reflexivity.
-  - pose proof (render_groups_nodot _ _ uppers Hok) as Hnd.
-    cbn [groups_ok] in Hok. apply andb_true_iff in Hok. destruct Hok as [Hg Hgs].
-    cbn [length read_groups]. destruct i as [|i]; [lia|]. cbn [read_sep]. change (58 =? 58) with true. cbv iota.
-    rewrite (read_ipv4_nodot _ Hnd). destruct (S i <? 8 - 1)%nat.
-    + cbn [render_groups].
-      rewrite (read_group_hex _ _ g _ Hg) by (destruct gs; [exact I|apply stopper16_colon]).
-      replace (acc ++ g :: gs) with ((acc ++ [g]) ++ gs) by (rewrite <- app_assoc; reflexivity).
-      apply IH; [exact Hgs|lia|cbn [length] in Hlen; lia].
-    + cbn [render_groups].
-      rewrite (read_group_hex _ _ g _ Hg) by (destruct gs; [exact I|apply stopper16_colon]).
-      replace (acc ++ g :: gs) with ((acc ++ [g]) ++ gs) by (rewrite <- app_assoc; reflexivity).
-      apply IH; [exact Hgs|lia|cbn [length] in Hlen; lia].
+  unfold read_number. cbn [rn_loop]. assert (H : to_digit radix 58 = None) by (unfold to_digit; cbn; reflexivity).
+  rewrite H. reflexivity.
 Qed.
 
-Lemma read_groups_first g gs drops uppers : groups_ok drops (g :: gs) = true -> (length gs = 7)%nat ->
-  read_groups (S (length gs)) 0 8 (render_groups drops uppers (g :: gs)) [] = (g :: gs, false, []).
+Lemma read_ipv4_colon X : read_ipv4_addr (58 :: X) = None.
+Proof. unfold read_ipv4_addr. cbn [read_sep]. rewrite read_number_colon. reflexivity. Qed.
+
+Lemma read_ipv4_nil : read_ipv4_addr [] = None. Proof. reflexivity. Qed.
+
+(* the next iteration finds no group *)
+Lemma read_groups_stop m i limit rest acc : gstop rest -> (1 <= i)%nat -> read_groups m i limit rest acc = (acc, false, rest).
 Proof.
-  intros Hok Hlen. pose proof (render_groups_nodot _ _ uppers Hok) as Hnd.
+  intros Hs Hi. destruct m as [|m]; [reflexivity|]. cbn [read_groups]. destruct i as [|i]; [lia|]. cbn [read_sep].
+  destruct Hs as [->|(X & ->)].
+  - destruct (S i <? limit - 1)%nat; reflexivity.
+  - change (58 =? 58) with true. cbv iota. rewrite read_ipv4_colon, read_number_colon. destruct (S i <? limit - 1)%nat; reflexivity.
+Qed.
+
+Lemma render_groups_nodot_app gs drops uppers rest : groups_ok drops gs = true -> Forall (fun c => c <> 46) rest ->
+  Forall (fun c => c <> 46) (render_groups drops uppers gs ++ rest).
+Proof. intros H Hr. apply Forall_app. split; [apply render_groups_nodot; exact H|exact Hr]. Qed.
+
+(* the groups after the first: each is preceded by a colon *)
+Lemma read_groups_tail limit : forall gs drops uppers m i acc rest, groups_ok drops gs = true -> (1 <= i)%nat ->
+  gstop rest -> Forall (fun c => c <> 46) rest ->
+  read_groups (length gs + m) i limit (match gs with [] => [] | _ => 58 :: render_groups drops uppers gs end ++ rest) acc =
+  read_groups m (i + length gs) limit rest (acc ++ gs).
+Proof.
+  induction gs as [|g gs IH]; intros drops uppers m i acc rest Hok Hi Hs Hnd.
+  - cbn [length app Nat.add]. rewrite Nat.add_0_r, app_nil_r. reflexivity.
+  - pose proof (render_groups_nodot_app _ _ uppers rest Hok Hnd) as Hnd'.
+    cbn [groups_ok] in Hok. apply andb_true_iff in Hok. destruct Hok as [Hg Hgs].
+    cbn [length Nat.add read_groups app]. destruct i as [|i]; [lia|]. cbn [read_sep]. change (58 =? 58) with true. cbv iota.
+    rewrite (read_ipv4_nodot _ Hnd').
+    assert (Hrd : read_number 16 4 true U16_MAX (render_groups drops uppers (g :: gs) ++ rest) =
+                  Some (g, match gs with [] => [] | _ => 58 :: render_groups (tl drops) (tl uppers) gs end ++ rest)).
+    { cbn [render_groups]. rewrite <- app_assoc. apply read_group_hex; [exact Hg|].
+      destruct gs; [cbn [app]; apply gstop_stopper; exact Hs|apply stopper16_colon]. }
+    rewrite Hrd.
+    assert (Hnext : read_groups (length gs + m) (S (S i)) limit
+              (match gs with [] => [] | _ => 58 :: render_groups (tl drops) (tl uppers) gs end ++ rest) (acc ++ [g]) =
+              read_groups m (S i + S (length gs)) limit rest (acc ++ g :: gs)).
+    { rewrite (IH (tl drops) (tl uppers) m (S (S i)) (acc ++ [g]) rest Hgs ltac:(lia) Hs Hnd).
+      rewrite <- app_assoc. cbn [app]. f_equal. lia. }
+    destruct (S i <? limit - 1)%nat; exact Hnext.
+Qed.
+
+(* a run of groups from the beginning of a (part of an) address *)
+Lemma read_groups_run limit : forall gs drops uppers m rest, groups_ok drops gs = true -> gs <> [] ->
+  gstop rest -> Forall (fun c => c <> 46) rest ->
+  read_groups (length gs + m) 0 limit (render_groups drops uppers gs ++ rest) [] = read_groups m (length gs) limit rest gs.
+Proof.
+  intros gs drops uppers m rest Hok Hne Hs Hnd. destruct gs as [|g gs]; [congruence|].
+  pose proof (render_groups_nodot_app _ _ uppers rest Hok Hnd) as Hnd'.
   cbn [groups_ok] in Hok. apply andb_true_iff in Hok. destruct Hok as [Hg Hgs].
-  cbn [read_groups]. cbn [read_sep]. rewrite (read_ipv4_nodot _ Hnd).
-  change (0 <? 8 - 1)%nat with true. cbv iota. cbn [render_groups].
-  rewrite (read_group_hex _ _ g _ Hg) by (destruct gs; [exact I|apply stopper16_colon]).
-  change (g :: gs) with (([] ++ [g]) ++ gs). apply read_groups_tail; [exact Hgs|lia|lia].
+  cbn [length Nat.add read_groups]. cbn [read_sep]. rewrite (read_ipv4_nodot _ Hnd').
+  assert (Hrd : read_number 16 4 true U16_MAX (render_groups drops uppers (g :: gs) ++ rest) =
+                Some (g, match gs with [] => [] | _ => 58 :: render_groups (tl drops) (tl uppers) gs end ++ rest)).
+  { cbn [render_groups]. rewrite <- app_assoc. apply read_group_hex; [exact Hg|].
+    destruct gs; [cbn [app]; apply gstop_stopper; exact Hs|apply stopper16_colon]. }
+  rewrite Hrd.
+  assert (Hnext : read_groups (length gs + m) 1 limit
+            (match gs with [] => [] | _ => 58 :: render_groups (tl drops) (tl uppers) gs end ++ rest) ([] ++ [g]) =
+            read_groups m (S (length gs)) limit rest (g :: gs)).
+  { rewrite (read_groups_tail limit gs (tl drops) (tl uppers) m 1 ([] ++ [g]) rest Hgs ltac:(lia) Hs Hnd). reflexivity. }
+  destruct (0 <? limit - 1)%nat; exact Hnext.
+Qed.
+
+(* nothing to read at index 0: the text is empty or begins with "::" *)
+Lemma read_groups_none m limit rest : gstop rest -> read_groups m 0 limit rest [] = ([], false, rest).
+Proof.
+  intros Hs. destruct m as [|m]; [reflexivity|]. cbn [read_groups read_sep]. destruct Hs as [->|(X & ->)].
+  - destruct (0 <? limit - 1)%nat; reflexivity.
+  - rewrite read_ipv4_colon, read_number_colon. destruct (0 <? limit - 1)%nat; reflexivity.
+Qed.
+
+(* any run, possibly empty, with enough iterations left (or exactly as many as groups, at the end of the text) *)
+Lemma read_groups_part limit gs drops uppers m rest : groups_ok drops gs = true -> gstop rest -> Forall (fun c => c <> 46) rest ->
+  (m = 0%nat -> rest = []) ->
+  read_groups (length gs + m) 0 limit (render_groups drops uppers gs ++ rest) [] = (gs, false, rest).
+Proof.
+  intros Hok Hs Hnd Hm. destruct gs as [|g gs].
+  - cbn [length Nat.add render_groups app]. apply read_groups_none. exact Hs.
+  - rewrite (read_groups_run limit (g :: gs) drops uppers m rest Hok ltac:(discriminate) Hs Hnd).
+    destruct m as [|m]; [cbn [read_groups]; rewrite (Hm eq_refl); reflexivity|].
+    apply read_groups_stop; [exact Hs|cbn [length]; lia].
+Qed.
+
+Lemma groups_ok_firstn : forall gs drops k, groups_ok drops gs = true -> groups_ok drops (firstn k gs) = true.
+Proof.
+  induction gs as [|g gs IH]; intros drops k H; [destruct k; reflexivity|]. destruct k as [|k]; [reflexivity|].
+  cbn [groups_ok firstn] in *. apply andb_true_iff in H. destruct H as [Hg Hgs]. rewrite Hg, (IH _ _ Hgs). reflexivity.
+Qed.
+
+Lemma groups_ok_skipn : forall gs drops k, groups_ok drops gs = true -> groups_ok (skipn k drops) (skipn k gs) = true.
+Proof.
+  induction gs as [|g gs IH]; intros drops k H; [destruct k; reflexivity|]. destruct k as [|k]; [exact H|].
+  cbn [groups_ok] in H. apply andb_true_iff in H. destruct H as [_ Hgs]. cbn [skipn]. destruct drops as [|d drops].
+  - specialize (IH [] k Hgs). destruct k; exact IH.
+  - apply IH. exact Hgs.
+Qed.
+
+Lemma zeros_repeat : forall l : list N, forallb (N.eqb 0) l = true -> l = repeat 0 (length l).
+Proof.
+  induction l as [|x l IH]; intros H; [reflexivity|]. cbn [forallb] in H. apply andb_true_iff in H. destruct H as [Hx Hl].
+  apply N.eqb_eq in Hx. subst x. cbn [length repeat]. f_equal. apply IH. exact Hl.
 Qed.
 
 Theorem ipv6_roundtrip c gs : ip6_ok c gs = true -> ipv6_from_str (render_ip6 c gs) = Some (flat_map sbe16 gs).
 Proof.
-  unfold ip6_ok. intros H. apply andb_true_iff in H. destruct H as [Hlen Hok]. apply Nat.eqb_eq in Hlen.
-  destruct gs as [|g gs]; [discriminate|]. cbn [length] in Hlen.
-  unfold ipv6_from_str, read_ipv6_addr, render_ip6.
-  assert (E8 : 8%nat = S (length gs)) by lia. rewrite E8 at 1.
-  rewrite (read_groups_first g gs _ _ Hok) by lia.
-  cbn [length]. replace (S (length gs) =? 8)%nat with true by (symmetry; apply Nat.eqb_eq; lia).
-  reflexivity.
+  unfold ip6_ok. intros H. apply andb_true_iff in H. destruct H as [H Hzip]. apply andb_true_iff in H. destruct H as [Hlen Hok].
+  apply Nat.eqb_eq in Hlen. unfold ipv6_from_str, read_ipv6_addr, render_ip6. destruct (g_zip c) as [[i n]|].
+  - apply andb_true_iff in Hzip. destruct Hzip as [Hzip Hz]. apply andb_true_iff in Hzip. destruct Hzip as [Hn Hin].
+    apply Nat.leb_le in Hn, Hin.
+    set (L := firstn i gs). set (R := skipn (i + n) gs).
+    assert (HL : length L = i) by (unfold L; rewrite firstn_length; lia).
+    assert (HR : length R = (8 - (i + n))%nat) by (unfold R; rewrite skipn_length; lia).
+    pose proof (groups_ok_firstn gs (g_drop c) i Hok) as HokL. fold L in HokL.
+    pose proof (groups_ok_skipn gs (g_drop c) (i + n) Hok) as HokR. fold R in HokR.
+    set (Rt := render_groups (skipn (i + n) (g_drop c)) (skipn (i + n) (g_upper c)) R) in *.
+    assert (HndR : Forall (fun c => c <> 46) Rt) by (apply render_groups_nodot; exact HokR).
+    (* the part before "::" *)
+    assert (E8 : 8%nat = (length L + (8 - i))%nat) by lia. rewrite E8 at 1.
+    rewrite (read_groups_part 8 L (g_drop c) (g_upper c) (8 - i) ([58; 58] ++ Rt) HokL);
+      [|right; eexists; reflexivity|constructor; [discriminate|constructor; [discriminate|exact HndR]]|intros Hm; lia].
+    rewrite HL. destruct (i =? 8)%nat eqn:Ei8; [apply Nat.eqb_eq in Ei8; lia|].
+    cbn [app]. change (58 =? 58) with true. cbn [andb].
+    (* the part after it *)
+    assert (Elim : (8 - (i + 1))%nat = (length R + (n - 1))%nat) by lia. rewrite Elim.
+    rewrite <- (app_nil_r Rt). unfold Rt.
+    rewrite (read_groups_part (length R + (n - 1)) R (skipn (i + n) (g_drop c)) (skipn (i + n) (g_upper c)) (n - 1) [] HokR); [|left; reflexivity|constructor|reflexivity].
+    f_equal. rewrite HR.
+    assert (Egs : gs = L ++ repeat 0 n ++ R).
+    { unfold L, R. rewrite <- (firstn_skipn i gs) at 1. f_equal. rewrite <- (firstn_skipn n (skipn i gs)) at 1. f_equal.
+      - rewrite (zeros_repeat _ Hz) at 1. f_equal. rewrite firstn_length, skipn_length. lia.
+      - rewrite skipn_plus. f_equal. }
+    replace (8 - i - (8 - (i + n)))%nat with n by lia. rewrite <- Egs. reflexivity.
+  - destruct gs as [|g gs]; [discriminate|]. cbn [length] in Hlen.
+    assert (E8 : 8%nat = (length (g :: gs) + 0)%nat) by (cbn [length]; lia). rewrite E8 at 1.
+    rewrite <- (app_nil_r (render_groups (g_drop c) (g_upper c) (g :: gs))).
+    rewrite (read_groups_part 8 (g :: gs) _ _ 0 [] Hok); [|left; reflexivity|constructor|reflexivity].
+    cbn [length]. replace (S (length gs) =? 8)%nat with true by (symmetry; apply Nat.eqb_eq; lia). reflexivity.
 Qed.
 
 Lemma render_groups_tok : forall gs drops uppers, groups_ok drops gs = true ->
@@ -289,10 +399,34 @@ Proof.
   - cbn [forallb length]. rewrite Ht, IH1. split; [reflexivity|]. cbn [length] in IH2. lia.
 Qed.
 
+Lemma ip6_ok_len c gs : ip6_ok c gs = true -> length gs = 8%nat.
+Proof. unfold ip6_ok. intros H. apply andb_true_iff in H. destruct H as [H _]. apply andb_true_iff in H. destruct H as [H _]. apply Nat.eqb_eq. exact H. Qed.
+
+Lemma ip6_tok c gs : ip6_ok c gs = true -> forallb tokch (render_ip6 c gs) = true /\ (length (render_ip6 c gs) <= 50)%nat.
+Proof.
+  intros H. pose proof (ip6_ok_len c gs H) as Hlen. unfold ip6_ok in H. apply andb_true_iff in H. destruct H as [H Hzip].
+  apply andb_true_iff in H. destruct H as [_ Hok]. unfold render_ip6. destruct (g_zip c) as [[i n]|].
+  - destruct (render_groups_tok _ _ (g_upper c) (groups_ok_firstn gs (g_drop c) i Hok)) as [A1 A2].
+    destruct (render_groups_tok _ _ (skipn (i + n) (g_upper c)) (groups_ok_skipn gs (g_drop c) (i + n) Hok)) as [B1 B2].
+    rewrite !forallb_app, A1, B1. split; [reflexivity|]. rewrite !app_length. cbn [length].
+    rewrite firstn_length in A2. rewrite skipn_length in B2. lia.
+  - destruct (render_groups_tok gs (g_drop c) (g_upper c) Hok) as [A1 A2]. split; [exact A1|lia].
+Qed.
+
+Lemma ip6_head c gs : ip6_ok c gs = true -> exists h tl, render_ip6 c gs = h :: tl /\ h <> 92 /\ plainb h = true.
+Proof.
+  intros H. destruct (ip6_tok c gs H) as [Ht _]. pose proof (ipv6_roundtrip c gs H) as Hr.
+  destruct (render_ip6 c gs) as [|h tl]; [change (ipv6_from_str []) with (@None bytes) in Hr; discriminate|]. exists h, tl. split; [reflexivity|].
+  cbn [forallb] in Ht. apply andb_true_iff in Ht. destruct Ht as [Hh _]. split; [|unfold tokch in Hh; apply andb_true_iff in Hh; tauto].
+  intros ->. unfold ipv6_from_str, read_ipv6_addr in Hr. cbn [read_groups read_sep] in Hr.
+  assert (E1 : read_ipv4_addr (92 :: tl) = None) by (unfold read_ipv4_addr; cbn [read_sep]; unfold read_number; cbn [rn_loop]; reflexivity).
+  assert (E2 : read_number 16 4 true U16_MAX (92 :: tl) = None) by (unfold read_number; cbn [rn_loop]; reflexivity).
+  rewrite E1, E2 in Hr. destruct tl as [|c2 l2]; cbn in Hr; discriminate.
+Qed.
+
 Theorem ip6_field_runs c gs p : ip6_ok c gs = true -> runs fend parse_ipv6 (render_ip6 c gs) p p (flat_map sbe16 gs).
 Proof.
-  intros H. pose proof H as H'. unfold ip6_ok in H'. apply andb_true_iff in H'. destruct H' as [Hlen Hok]. apply Nat.eqb_eq in Hlen.
-  destruct (render_groups_tok gs (g_drop c) (g_upper c) Hok) as [T1 T2].
-  unfold parse_ipv6. apply read_field_runs; [exact T1|unfold render_ip6; lia|].
+  intros H. destruct (ip6_tok c gs H) as [T1 T2].
+  unfold parse_ipv6. apply read_field_runs; [exact T1|lia|].
   rewrite (ipv6_roundtrip c gs H). reflexivity.
 Qed.
